@@ -150,6 +150,10 @@ def run(ctx):
     maxlen = 8 if ctx.thorough else 6
     ctx.sweep("predicates", all_strings(maxlen), predicate_case, exhaustive=True)
     ctx.sub("predicates").notes.append("all strings up to length %d over %r" % (maxlen, ALPHABET))
+    # 'other' characters that LOOK like members of the documented classes: a non-ASCII decimal digit, a non-ASCII letter
+    wide = "a1-.\u0663\u00e9\uff14"
+    ctx.sweep("predicates-non-ascii", ("".join(t) for n in range(1, (6 if ctx.thorough else 5) + 1) for t in itertools.product(wide, repeat=n)), predicate_case, exhaustive=True)
+    ctx.sub("predicates-non-ascii").notes.append("all strings up to length %d over %r" % (6 if ctx.thorough else 5, wide))
 
     def counted(case):
         info = roundtrip_case(case)
@@ -160,4 +164,4 @@ def run(ctx):
     ctx.forall("refusal", refusal_strategy, refusal_case, ctx.n(4000, 200000))
 
 
-REPLAY = {"predicates": predicate_case, "roundtrip": roundtrip_case, "refusal": refusal_case}
+REPLAY = {"predicates-non-ascii": predicate_case, "predicates": predicate_case, "roundtrip": roundtrip_case, "refusal": refusal_case}
